@@ -78,6 +78,26 @@ InitFlags ==
                                         Rc(2, 7, "C", "T", f2, s2, -1, TRUE, TRUE, <<Cl(<<0, 1>>, <<1, 2>>, 3)>>) >>)
         /\ args = [DefaultArgs EXCEPT !.skipsom = ss, !.skiprej = sr, !.mind = md]
 
+(* ---------------------------------------------------------------- scope "somdepth": where in the file is the depth? *)
+(* two records, each SOMATIC or not, whose filtered sample (the sample, or the paired normal) has full depth, low     *)
+(* depth, "." for DP and AD, or a FORMAT of GT only -- so that depth information may exist only in a SOMATIC record,   *)
+(* only in a germline record, or nowhere -- x skip_somatic x min_depth, through read and load_het_snps                *)
+SdKinds == {"full", "low", "dots", "gtonly"}
+SdKeyCall(kind) == CASE kind = "full" -> Cl(<<0, 1>>, <<2, 2>>, 4)
+                     [] kind = "low" -> Cl(<<0, 1>>, <<1, 0>>, 1)
+                     [] OTHER -> Cl(<<0, 1>>, <<-1>>, -1)
+SdRec(pos, ref, alt, kind, som, paired) ==
+    Rc(1, pos, ref, alt, <<>>, som, -1, kind # "gtonly", kind # "gtonly",
+       IF paired THEN << IF kind = "gtonly" THEN Cl(<<0, 1>>, <<-1>>, -1) ELSE Cl(<<0, 1>>, <<3, 3>>, 6), SdKeyCall(kind) >>
+       ELSE << SdKeyCall(kind) >>)
+SdCfg == {<<"read", FALSE, -1>>, <<"read", TRUE, -1>>, <<"read", FALSE, 2>>, <<"read", TRUE, 2>>, <<"hets", TRUE, 2>>}
+InitSomDepth ==
+    \E k1, k2 \in SdKinds : \E s1, s2 \in BOOLEAN : \E cf \in SdCfg : \E paired \in BOOLEAN :
+        /\ op = cf[1] /\ segs = NoSegs
+        /\ vcf = Vcf(IF paired THEN <<"S1", "S2">> ELSE <<"S1">>, IF paired THEN << <<"S1", "S2">> >> ELSE <<>>,
+                     << SdRec(3, "A", "G", k1, s1, paired), SdRec(7, "C", "T", k2, s2, paired) >>)
+        /\ args = [DefaultArgs EXCEPT !.skipsom = cf[2], !.mind = IF cf[1] = "hets" THEN 2 ELSE cf[3]]
+
 (* ---------------------------------------------------------------- scope "pair": tumour + normal, read and load_het_snps *)
 TCalls == {Cl(<<0, 1>>, <<2, 2>>, 4), Cl(<<0, 1>>, <<1, 3>>, 4), Cl(<<1, 1>>, <<0, 2>>, 2), Cl(<<0, 0>>, <<4, 0>>, 4),
            Cl(<<-1, -1>>, <<-1>>, -1), Cl(<<0, 1>>, <<0, 0>>, 0)}
@@ -176,6 +196,7 @@ Init == /\ ph = "call"
              [] Scope = "record"  -> InitRecord
              [] Scope = "alleles" -> InitAlleles
              [] Scope = "flags"   -> InitFlags
+             [] Scope = "somdepth" -> InitSomDepth
              [] Scope = "pair"    -> InitPair
              [] Scope = "hets1"   -> InitHets1
              [] Scope = "baf"     -> InitBaf
